@@ -98,6 +98,35 @@ def main(tier):
                     t = ch.row(l)
                     ex.append([{"e": "Reset", "y": t[1], "m": t[2], "d": t[3]},
                                {"e": "Txt", "src": "dadd -i %s %+db" % (kind, k), "in": cc.fmt_row(kind, r), "txt": {cc.OUTKEY[kind]: got}}])
+        # date-times under --from-zone: business days are counted from the weekday of the date *as written* (the zone's wall clock), also
+        # where the UTC date is on the other side of a weekend; the time of day rides along; as argument and as stdin line
+        import datetime
+        zl = []
+        for zone in ("Asia/Tokyo", "America/New_York", "Pacific/Auckland"):
+            for base in (datetime.date(2024, 1, 5), datetime.date(2024, 1, 6), datetime.date(2024, 1, 7), datetime.date(2024, 1, 8), datetime.date(2023, 12, 29)):
+                for tod in ("02:00:00", "22:00:00", "12:00:00"):
+                    for k in (1, -1, 5, -3):
+                        zl.append((zone, base, tod, k))
+        for zone, base, tod, k in zl[:: 3 if quick else 1]:
+            d = base
+            cnt = 0
+            while cnt < abs(k):
+                d += datetime.timedelta(days=1 if k > 0 else -1)
+                if d.isoweekday() <= 5:
+                    cnt += 1
+            for mode in ("arg", "stdin"):
+                a_ = ["--from-zone", zone, "-z", zone, "-f", "%F|%T"]
+                val = "%sT%s" % (base.isoformat(), tod)
+                if mode == "arg":
+                    p = core.run([dadd] + a_ + [val, "--", "%+db" % k], timeout=20)
+                else:
+                    p = core.run([dadd] + a_ + ["--", "%+db" % k], inp=val + "\n", timeout=20)
+                got = p.stdout.strip().split("|")
+                if len(got) != 2 or got[1] != tod:
+                    rep.disagree("cli dadd --from-zone Nb: time of day not kept", {"cmd": "dadd --from-zone %s -z %s %s %+db (%s)" % (zone, zone, val, k, mode), "out": p.stdout.strip()})
+                    continue
+                ex.append([{"e": "Reset", "y": d.year, "m": d.month, "d": d.day},
+                           {"e": "Txt", "src": "dadd --from-zone Nb (%s)" % mode, "in": "%s %s %+db" % (zone, val, k), "txt": {"F": got[0]}}])
         cc.validate_and_report(rep, "CalendarTrace", "CalendarTrace.cfg", ex, lambda bad, e: "cli %s" % " ".join(bad.get("src", "?").split()[:3]),
                                "tool_execution")
         rep.cov["rule"] = ("A: one case = (day, notation, signed business-day count): |k|<=40|120 on every 3rd|every day, |k|<=700|2600 on "
